@@ -15,18 +15,12 @@
     * hence `encodeData … false` succeeds on the same subsets with the same report
                                                           (`C05_walk_encodeData_transparent_partial`).
 
-  `_partial`: what is missing for the full property ("… decode to identical values") is the
-  decoder half — `encPrimsCX ⟶ decPrimsC` (an indexed simulation exactly like `primSim_enc_dec`, with
-  the column round trip `C05_column_roundtrip` / `C05_string_column_roundtrip` in the place of the
-  field codecs) composed with this projection and with `C03_walk_roundtrip`; see notes/C05Walk.md.
-
-  FULL STATEMENT (not proved here):
-    theorem C05_walk_transparent (t valss) (h : encodeCompressedX' t valss = .ok (os, canons, b)) :
-      decodeCompressed t valss.length (b.reverse ++ rest) = .ok (withCanon os canons, rest) ∧
-      ∀ k row, valss[k]? = some row → ∃ o b', encodeSubset t row [] = .ok (o, b') ∧
-        decodeSubset t (b'.reverse ++ rest') = .ok ((withCanon os canons)[k], rest')
-  where `encodeCompressedX'` additionally refuses values that hit the all-ones pattern of their field
-  and missing values in one-bit fields (both decode differently compressed / uncompressed).
+  The two `_partial` theorems are the ENCODER half.  The decoder half and the full property are in the
+  second part of this file: `C05_walk_compressed_roundtrip`, `C05_walk_subset_canon`,
+  `C05_walk_transparent`, `C05_walk_transparent_eq`, for `encodeCompressedT` — `encodeCompressedX`
+  with the further refusals without which compressed and uncompressed decoding differ (a present
+  value that is the all-ones pattern of its field, a missing value in a one-bit field, fields wider
+  than 64 bits, structural values that do not read back as supplied); see there.
 -/
 import BufrModel.Lemmas.SimComp
 import BufrModel.Lemmas.SimCompDec
@@ -232,7 +226,7 @@ theorem C05_walk_dec_run {t : List Desc} {valss : List (List Val)} {s : St}
   exact hsim { bits := s.bits.reverse ++ rest, vals := List.replicate valss.length [] }
     ⟨rfl, rfl, rfl, rfl, by simp [ghostInit, List.map_const'], by simp [ghostInit], rfl⟩
 
-theorem withCanon_map (D : List DDesc) (K : List (Nat × Nat)) (g : (Nat × List Val) → List Val) :
+theorem c05w_withCanon_map (D : List DDesc) (K : List (Nat × Nat)) (g : (Nat × List Val) → List Val) :
     ∀ (valss : List (List Val)) (forced : List (Nat × List Val)), forced.length = valss.length →
       withCanon (valss.map (fun l => ({ descs := D, vals := l, links := K } : SubsetOut))) (forced.map g)
         = forced.map (fun x => ({ descs := D, vals := g x, links := K } : SubsetOut))
@@ -240,7 +234,7 @@ theorem withCanon_map (D : List DDesc) (K : List (Nat × Nat)) (g : (Nat × List
   | [], _ :: _, h => by simp at h
   | _ :: _, [], h => by simp at h
   | v :: vs, f :: fs, h => by
-    have ih := withCanon_map D K g vs fs (by simpa using h)
+    have ih := c05w_withCanon_map D K g vs fs (by simpa using h)
     simp only [withCanon, List.map_cons, List.zipWith_cons_cons] at ih ⊢
     rw [ih]
 
@@ -262,7 +256,7 @@ theorem C05_walk_compressed_roundtrip {t : List Desc} {valss : List (List Val)}
     obtain ⟨t', ht', h1, h2, h3, h4, h5, h6, h7⟩ := C05_walk_dec_run hw rest
     unfold decodeCompressed
     rw [ht']
-    simp only [St.outs, h2, h3, h4, h5, withCanon_map _ _ _ valss s.forced h6, List.map_map]
+    simp only [St.outs, h2, h3, h4, h5, c05w_withCanon_map _ _ _ valss s.forced h6, List.map_map]
     rfl
 
 /-- the number of subsets reported -/
@@ -378,5 +372,114 @@ theorem C05_walk_transparent_eq {t : List Desc} {valss : List (List Val)}
   obtain ⟨hdC, hdU⟩ := hd []
   simp only [List.append_nil] at hdC hdU
   simp only [roundTripData, heC, heU, hdC, hdU, and_self]
+
+/-! ### non-vacuity of the transparency theorem, and why each refusal is there -/
+
+namespace C05WalkTEx
+
+/-- a numeric element, a delayed replication of a code-table element, a character element -/
+def tmpl : List Desc :=
+  [ .elem { id := 12001, kind := .numeric, nbits := 12, scale := 1, ref := -100 },
+    .delayedRep 101000 (.elem { id := 31001, kind := .numeric, nbits := 8, scale := 0, ref := 0 })
+      [ .elem { id := 20003, kind := .codeflag, nbits := 4, scale := 0, ref := 0 } ],
+    .elem { id := 1015, kind := .string, nbits := 16, scale := 0, ref := 0 } ]
+
+/-- three subsets with equal replication factors; missing numeric, code and character entries -/
+def valss : List (List Val) :=
+  [ [ .num 215 1, .int 2, .int 3, .missing, .bytes [65] ],
+    [ .num 180 1, .int 2, .int 5, .int 7, .bytes [66, 67] ],
+    [ .missing, .int 2, .missing, .int 7, .missing ] ]
+
+/-- what both decoders return: "A" padded, the missing string as 0xFF bytes -/
+def canons : List (List Val) :=
+  [ [ .num 215 1, .int 2, .int 3, .missing, .bytes [65, 32] ],
+    [ .num 180 1, .int 2, .int 5, .int 7, .bytes [66, 67] ],
+    [ .missing, .int 2, .missing, .int 7, .bytes [255, 255] ] ]
+
+/-- the hypothesis of the theorems is satisfiable: accepted, 155 bits, canonical values as expected -/
+theorem accepted :
+    (encodeCompressedT tmpl valss).map (fun x => (x.2.1, x.2.2.length)) = .ok (canons, 155) := by
+  decide +kernel
+
+/-- both sides of the transparency equation computed directly on the model -/
+example :
+    (roundTripData tmpl true valss).map (·.map (·.vals)) = .ok canons ∧
+    (roundTripData tmpl false valss).map (·.map (·.vals)) = .ok canons ∧
+    roundTripData tmpl true valss = roundTripData tmpl false valss := by decide +kernel
+
+/-- … and obtained from the theorem -/
+example : roundTripData tmpl true valss = roundTripData tmpl false valss := by
+  cases h : encodeCompressedT tmpl valss with
+  | error e => have := accepted; rw [h] at this; cases this
+  | ok r =>
+    obtain ⟨os, cs, b⟩ := r
+    exact (C05_walk_transparent_eq h).1
+
+def tmpl8 : List Desc := [ .elem { id := 12001, kind := .numeric, nbits := 8, scale := 0, ref := 0 } ]
+def tmplC4 : List Desc := [ .elem { id := 20003, kind := .codeflag, nbits := 4, scale := 0, ref := 0 } ]
+def tmpl1 : List Desc := [ .elem { id := 12001, kind := .numeric, nbits := 1, scale := 0, ref := 0 } ]
+def tmpl65 : List Desc := [ .elem { id := 12001, kind := .numeric, nbits := 65, scale := 0, ref := 0 } ]
+def tmpl63 : List Desc := [ .elem { id := 12001, kind := .numeric, nbits := 63, scale := 0, ref := 0 } ]
+
+/-- Refusal 3 is necessary (a present value equal to the all-ones pattern, next to another value):
+    `encodeCompressedX` accepts, `encodeCompressedT` refuses; compressed the 255 comes back as 255,
+    uncompressed as missing. -/
+example :
+    (encodeCompressedX tmpl8 [[.int 0], [.int 255]]).toBool = true ∧
+    (encodeCompressedT tmpl8 [[.int 0], [.int 255]]).toBool = false ∧
+    (roundTripData tmpl8 true [[.int 0], [.int 255]]).map (·.map (·.vals)) = .ok [[.int 0], [.int 255]] ∧
+    (roundTripData tmpl8 false [[.int 0], [.int 255]]).map (·.map (·.vals)) = .ok [[.int 0], [.missing]] := by
+  decide +kernel
+
+/-- Refusal 3 is necessary for code / flag tables too (all ones as the MINIMUM of a column with a
+    missing entry): the compressed decoder refuses the column the compressed encoder wrote
+    (increments after an all-ones minimum), uncompressed both entries read back missing. -/
+example :
+    (encodeCompressedX tmplC4 [[.int 15], [.missing]]).toBool = true ∧
+    (encodeCompressedT tmplC4 [[.int 15], [.missing]]).toBool = false ∧
+    roundTripData tmplC4 true [[.int 15], [.missing]] = .error .other ∧
+    (roundTripData tmplC4 false [[.int 15], [.missing]]).map (·.map (·.vals)) = .ok [[.missing], [.missing]] := by
+  decide +kernel
+
+/-- Refusal 4 is necessary (a missing value in a one-bit field): compressed it comes back missing,
+    uncompressed as the value 1. -/
+example :
+    (encodeCompressedX tmpl1 [[.missing], [.int 0]]).toBool = true ∧
+    (encodeCompressedT tmpl1 [[.missing], [.int 0]]).toBool = false ∧
+    (roundTripData tmpl1 true [[.missing], [.int 0]]).map (·.map (·.vals)) = .ok [[.missing], [.int 0]] ∧
+    (roundTripData tmpl1 false [[.missing], [.int 0]]).map (·.map (·.vals)) = .ok [[.int 1], [.int 0]] := by
+  decide +kernel
+
+/-- Refusal 2 (a field wider than 64 bits) is necessary for the ROUND TRIP statements: both encoders
+    write the field, neither decoder reads it (the equation of transparency holds as error = error). -/
+example :
+    (encodeCompressedX tmpl65 [[.int 0], [.int 1]]).toBool = true ∧
+    (encodeCompressedT tmpl65 [[.int 0], [.int 1]]).toBool = false ∧
+    roundTripData tmpl65 true [[.int 0], [.int 1]] = .error .other ∧
+    roundTripData tmpl65 false [[.int 0], [.int 1]] = .error .other := by
+  decide +kernel
+
+/-- No refusal is needed for `Spec.SpanOK`: on a column whose spread needs a 64-bit increment the
+    compressed encoder itself fails (the uncompressed one does not: compression is not transparent
+    for ACCEPTANCE on 63- and 64-bit fields). -/
+example :
+    (encodeData tmpl63 true [[.int 0], [.int (2 ^ 63 - 2)]]).toBool = false ∧
+    (roundTripData tmpl63 false [[.int 0], [.int (2 ^ 63 - 2)]]).map (·.map (·.vals))
+      = .ok [[.int 0], [.int (2 ^ 63 - 2)]] := by
+  decide +kernel
+
+/-- Refusals 3 and 4 are stated per value and are therefore coarser than necessary in ONE situation:
+    a column whose subsets all supply the same value (no increments are written).  There both forms
+    agree — all ones reads back missing, a missing one-bit value reads back 1 — although
+    `encodeCompressedT` refuses. -/
+example :
+    (encodeCompressedT tmpl8 [[.int 255], [.int 255]]).toBool = false ∧
+    roundTripData tmpl8 true [[.int 255], [.int 255]] = roundTripData tmpl8 false [[.int 255], [.int 255]] ∧
+    (roundTripData tmpl8 true [[.int 255], [.int 255]]).map (·.map (·.vals)) = .ok [[.missing], [.missing]] ∧
+    roundTripData tmpl1 true [[.missing], [.missing]] = roundTripData tmpl1 false [[.missing], [.missing]] ∧
+    (roundTripData tmpl1 true [[.missing], [.missing]]).map (·.map (·.vals)) = .ok [[.int 1], [.int 1]] := by
+  decide +kernel
+
+end C05WalkTEx
 
 end Bufr
